@@ -116,14 +116,14 @@ Definition ob_sub_keyis (s : Z) (key : ob_opts) (x : ob_sub) : bool :=
   (sb_sess x =? s) && ob_opts_eqb (sb_key x) key.
 
 (* coap_find_observer / coap_find_observer_cache_key *)
-Fixpoint ob_find (f : ob_sub -> bool) (l : list ob_sub) : option ob_sub :=
+Fixpoint ob_find {A : Type} (f : A -> bool) (l : list A) : option A :=
   match l with
   | [] => None
   | x :: tl => if f x then Some x else ob_find f tl
   end.
 
 (* LL_DELETE of the first match; the bool tells whether one was removed *)
-Fixpoint ob_remove1 (f : ob_sub -> bool) (l : list ob_sub) : list ob_sub * bool :=
+Fixpoint ob_remove1 {A : Type} (f : A -> bool) (l : list A) : list A * bool :=
   match l with
   | [] => ([], false)
   | x :: tl => if f x then (tl, true)
@@ -489,11 +489,12 @@ Fixpoint ob_run (p : ob_params) (st : ob_state) (ops : list ob_op)
       (st2, (op, outs) :: tr)
   end.
 
-(* initial state: resources 0..n-1 with the given modes, observe = 2 (coap_resource_init) *)
-Fixpoint ob_init_res (id : Z) (modes : list Z) : list ob_res :=
+(* initial state: resources 0..n-1 with the given modes; observe = 2 after coap_resource_init,
+   or whatever coap_persist_set_observe_num() installed before the server started *)
+Fixpoint ob_init_res (id : Z) (modes : list (Z * Z)) : list ob_res :=
   match modes with
   | [] => []
-  | m :: tl => ob_fresh_res id m false :: ob_init_res (id + 1) tl
+  | (m, v) :: tl => mk_res id m false (v mod 16777216) false false [] :: ob_init_res (id + 1) tl
   end.
 
-Definition ob_init (modes : list Z) : ob_state := mk_st (ob_init_res 0 modes) false [] 0 [].
+Definition ob_init (modes : list (Z * Z)) : ob_state := mk_st (ob_init_res 0 modes) false [] 0 [].
